@@ -245,7 +245,7 @@ def _check_triples(res, rn, name, key, build, script, trs, tol_factor, nontrivia
         xs = [rn.run(key, build, script, c) for c in (c0, c1, c2)]
         bad = [x for x in xs if isinstance(x, Exception)]
         if bad:
-            res["viol"].append(dict(sig=f"exception:{name}:{type(bad[0]).__name__}", cls=f"exception:{key}", msg=f"{desc0} c1={c1} c2={c2}: {bad[0]!r}"[:400]))
+            res["viol"].append(dict(sig=f"exception:{name}:{type(bad[0]).__name__}", cls=f"exception:{name}:{rn.J.shape[0]}x{rn.J.shape[1]}", msg=f"{desc0} c1={c1} c2={c2}: {bad[0]!r}"[:400]))
             continue
         S = max(rn.sigma(c0), rn.sigma(c1), rn.sigma(c2))
         err = float(np.abs(xs[0] - a * xs[1] - b * xs[2]).max())
@@ -256,7 +256,7 @@ def _check_triples(res, rn, name, key, build, script, trs, tol_factor, nontrivia
         if nontrivial_matrix and _nonprop(c1, c2):
             res["nontrivial"] += 1
         if err > tol:
-            res["viol"].append(dict(sig=f"nonlinear:{name}", cls=f"nonlinear:{key}",
+            res["viol"].append(dict(sig=f"nonlinear:{name}", cls=f"nonlinear:{name}:{rn.J.shape[0]}x{rn.J.shape[1]}:{key.split('[s')[0].split('(')[0]}",
                                     msg=f"{desc0} c1={c1} c2={c2} a={a} b={b}: A(c0)={xs[0].tolist()} a*A(c1)+b*A(c2)={(a * xs[1] + b * xs[2]).tolist()} err/tol={r:.3g}"[:600]))
     return
 
